@@ -131,6 +131,11 @@ def check_equilibria(run, ex, jnp, rng, tier):
         N = {1: 16, 2: 8, 3: 6}[D]
         cases += [("FisherKPP", D, N, {}, [[0.0], [1.0]]),
                   ("AllenCahn", D, N, {}, [[0.0], [1.0], [-1.0]]),
+                  # wells at +- sqrt(- c_1 / c_3) for coefficient ratios other than the default c_3 = - c_1
+                  ("AllenCahn", D, N, dict(first_order_coefficient=2.0, third_order_coefficient=-0.5), [[2.0], [-2.0], [0.0]]),
+                  ("AllenCahn", D, N, dict(first_order_coefficient=1.0, third_order_coefficient=-4.0), [[0.5], [-0.5]]),
+                  ("FisherKPP", D, N, dict(reactivity=2.5), [[1.0], [0.0]]),
+                  ("GrayScott", D, N, dict(feed_rate=0.03, kill_rate=0.07), [[1.0, 0.0]]),
                   ("GrayScott", D, N, {}, [[1.0, 0.0]]),
                   ("SwiftHohenberg", D, N, dict(reactivity=3.0, critical_number=1.0, polynomial_coefficients=(0.0, 0.0, 1.0, -1.0)), [[0.0], [2.0], [-1.0]]),
                   # r - k^2 = 2 with a non-default critical number: (r - k^2) u + u^2 - u^3 = 0  <=>  u in {0, 2, -1}
@@ -169,7 +174,11 @@ def check_equilibria_growth(run, ex, jnp):
     """Constant equilibria with N(u*) != 0 for a ladder of growth*dt (the row-sum identities hold for every z, in particular where
     |lambda(0) dt| equals the radius of the coefficient contour)."""
     R = ex.stepper.reaction
-    for r, dt in ((1.0, 1.0), (2.0, 0.5), (4.0, 0.25), (0.999, 1.0), (1.0, 0.5), (3.0, 1.0), (0.3, 0.1)):
+    # the second group walks |lambda(0) dt| down to zero (where an implementation may switch between formulas for the coefficients): there the
+    # contour quadrature is exact to rounding, so the fixed point is demanded to 2e-12 (measured on the unchanged tree: <= 2e-14)
+    for r, dt in ((1.0, 1.0), (2.0, 0.5), (4.0, 0.25), (0.999, 1.0), (1.0, 0.5), (3.0, 1.0), (0.3, 0.1),
+                  (1.0, 0.2), (1.0, 0.13), (1.0, 0.099), (0.9, 0.1), (1.4, 0.05), (1.0, 0.05), (0.5, 0.04), (1.1, 0.01), (1.0, 0.0099), (0.7, 1e-3), (1.0, 1e-5), (1.0, 1e-8)):
+        tol = 1e-10 if r * dt > 0.25 else 2e-12
         for order in (1, 2, 3, 4):
             for name, st, us in (("FisherKPP", R.FisherKPP(1, 3.0, 16, dt, diffusivity=0.01, reactivity=r, order=order), [1.0]),
                                  ("AllenCahn", R.AllenCahn(1, 3.0, 16, dt, diffusivity=0.01, first_order_coefficient=r, third_order_coefficient=-r, order=order), [1.0]),
@@ -179,7 +188,7 @@ def check_equilibria_growth(run, ex, jnp):
                 run.case(("equilibrium-growth", name, D, order, r, dt))
                 un = np.asarray(st(jnp.asarray(u)))
                 err = maxabs(un - u)
-                if not err <= 1e-10 * (1 + maxabs(u)):
+                if not err <= tol * (1 + maxabs(u)):
                     run.violation({"kind": "equilibrium", "cls": name, "D": D, "order": order, "what": "growth*dt ladder"},
                                   {"u_star": us, "growth": r, "dt": dt, "err": err})
 
